@@ -17,7 +17,7 @@ for d in sorted(glob.glob(f'/verif/seeded/{pid}-*/note.txt')):
 TAKEN = ''
 if taken and tag != 'a':
     TAKEN = ('\nIdeas ALREADY TAKEN by earlier rounds (do something different: another mechanism, another clause of the property, another file if possible):\n' + '\n'.join(taken) + '\n')
-print(f"""You are testing how well a property of the Python Bluetooth stack google/bumble is protected. You have your own scratch git worktree of the repository at {wt} (work ONLY there; never touch /repo or /verif, and do not read anything under /verif). Interpreter: /venv/bin/python (run things as `cd {wt} && PYTHONPATH={wt} /venv/bin/python ...`; the test suite is `cd {wt} && PYTHONPATH={wt} /venv/bin/python -m pytest -q -p no:cacheprovider -n 8 tests`, 940 tests, all pass now; check `python -c "import bumble; print(bumble.__file__)"` really points into {wt}). No network.
+print(f"""You are testing how well a property of the Python Bluetooth stack google/bumble is protected. You have your own scratch git worktree of the repository at {wt} (work ONLY there; never touch /repo or /verif, and do not read anything under /verif). Interpreter: /venv/bin/python (run things as `cd {wt} && PYTHONPATH={wt} /venv/bin/python ...`; the test suite is `cd {wt} && PYTHONPATH={wt} /venv/bin/python -m pytest -q -p no:cacheprovider -n 8 tests`, 940 tests, all pass now; check `python -c "import bumble; print(bumble.__file__)"` really points into {wt}). No network. NEVER use `git stash` (the stash is shared by all worktrees of the repository and other agents work in sibling worktrees): to get back to the clean tree use `git diff > out/patchN.diff` then `git checkout -- .`, and `git apply out/patchN.diff` to re-apply.
 
 The property (this text is all you get):
 
